@@ -139,6 +139,16 @@ def decision_rules(fb, ctx):
     if t_eval is not None and decision_by_evaluation(ctx, h, t_eval, where):
         policy_loop_rules(fb, ctx, b, h, where)
         return
+    # the decision may be spread over the statements that follow the policy loop (`let policy = match matched { Some(Allow(i)) if
+    # errors.is_empty() => return Ok(i), Some(p) => p, None => return Err(..) }; Err(Unauthorized { policy, .. })`): evaluate them
+    if isinstance(h["body"], dict) and h["body"].get("k") == "block":
+        sts = h["body"].get("stmts") or []
+        idx = [i for i, s_ in enumerate(sts) if find_all(s_, lambda n: n.get("k") == "loop" or (n.get("k") == "match" and n.get("src") == "ForLoopDesugar"))]      # after the last loop
+        if idx and idx[-1] + 1 < len(sts):
+            suffix = {"k": "block", "stmts": sts[idx[-1] + 1:], "expr": h["body"].get("expr"), "ln": sts[idx[-1] + 1].get("ln")}
+            if decision_by_evaluation(ctx, h, suffix, where):
+                policy_loop_rules(fb, ctx, b, h, where)
+                return
     if not (isinstance(t, dict) and t.get("k") == "match" and strip(t["scrut"]).get("k") == "tup"):
         ctx.fail("DECISION", "final decision table", "DECISION|shape", "authorize_inner does not end in `match (policy_result, errors.is_empty())`", where)
         return
@@ -201,6 +211,7 @@ def decision_by_evaluation(ctx, h, t, where):
     results = None
     # the matched policy is encoded as Option<Result<usize, usize>> (Ok = allow) today; a private enum with Allow / Deny variants is
     # the same information
+    candidates = []
     for allow_c, deny_c in (("Ok", "Err"), ("Allow", "Deny")):
         results = {}
         try:
@@ -208,10 +219,10 @@ def decision_by_evaluation(ctx, h, t, where):
                 for empty in (True, False):
                     it = absint.Interp(hooks={"is_empty": lambda interp, recv, args, e_=empty: e_ if recv == absint.sym("errors") else NotImplemented})
                     results[(pname, str(empty))] = it.run(t, {pol_id: pval, errs_id: absint.sym("errors")})
-            break
+            candidates.append(results)
         except absint.Unknown:
-            results = None
-    if results is None:
+            pass
+    if not candidates:
         return False
     def kind(v):
         if absint.tag(v) == "Ok":
@@ -228,6 +239,8 @@ def decision_by_evaluation(ctx, h, t, where):
                     return nm + pol + ("" if carries else " WITHOUT the failed checks")
         return absint.show(v)
     want = {("None", "True"): "NoMatchingPolicy", ("None", "False"): "NoMatchingPolicy", ("Some/Ok", "True"): "Ok", ("Some/Ok", "False"): "Unauthorized+Allow(i)", ("Some/Err", "True"): "Unauthorized+Deny(i)", ("Some/Err", "False"): "Unauthorized+Deny(i)"}
+    # the encoding the code uses is the one under which most cells come out right (the variable's type is not in the HIR facts)
+    results = max(candidates, key=lambda r_: sum(1 for c_, w_ in want.items() if kind(r_[c_]) == w_))
     for c, w in want.items():
         got = kind(results[c])
         ctx.check(got == w, "DECISION", f"(policy={c[0]}, no failed checks={c[1]}) -> {w}", f"DECISION|{c[0]}|{c[1]}", f"the final expression of authorize_inner evaluates to {got}, the semantics requires {w}", where)
